@@ -28,6 +28,9 @@ def coq_str(s):
     return '"' + s.replace('"', '""') + '"%string'
 
 
+NP_DISTINCT = False      # when True, numpy.ndarray values are encoded as VNpArr (not instances of jax.numpy.ndarray)
+
+
 def val(v):
     import jax
     from mellon.util import GaussianProcessType
@@ -58,7 +61,8 @@ def val(v):
         if k == "KI" and a.ndim == 0 and isinstance(v, jax.Array):
             return "(VJInt %s)" % Z(int(a))
         data = "; ".join(xf(x) for x in a.astype(float).ravel())
-        return "(VArr %s [%s] [%s])" % (k, "; ".join(Z(s) for s in a.shape), data)
+        ctor = "VNpArr" if (NP_DISTINCT and isinstance(v, np.ndarray)) else "VArr"
+        return "(%s %s [%s] [%s])" % (ctor, k, "; ".join(Z(s) for s in a.shape), data)
     if isinstance(v, tuple):
         return "(VTuple [%s])" % "; ".join(val(x) for x in v)
     if isinstance(v, list):
